@@ -171,6 +171,8 @@ func c19a(c *Ctx) {
 		inArm  func(b *ssa.BasicBlock) bool
 		armOf  func(b *ssa.BasicBlock) (int64, bool)
 		chT    string
+		// the caller had already peeked an ASCII character when it entered this helper
+		peekedAtEntry bool
 	}
 	callsBefore := func(e armEnv, at ssa.Instruction) []string {
 		var out []string
@@ -191,6 +193,9 @@ func c19a(c *Ctx) {
 		return out
 	}
 	peekedASCII := func(e armEnv, b *ssa.BasicBlock) bool {
+		if e.peekedAtEntry {
+			return true
+		}
 		arm, hasArm := e.armOf(b)
 		for _, l := range c.mustLits(e.f, b) {
 			// the peeked character equals the current one, which the arm knows to be ASCII
@@ -282,6 +287,8 @@ func c19a(c *Ctx) {
 					inArm:  func(*ssa.BasicBlock) bool { return true },
 					armOf:  func(*ssa.BasicBlock) (int64, bool) { return arm, hasArm },
 					chT:    "$0.ch",
+
+					peekedAtEntry: peekedASCII(e, in.Block()),
 				}, depth+1)
 			}
 		}
@@ -536,12 +543,13 @@ func c19b(c *Ctx) {
 	}
 	c.Check(okWidth && eofRead && sawZero, "readChar/width-is-decoded-size", c.W.FuncPos(fn), "width is 0 at end of input, else the decoded size", "cannot identify the decoded width")
 	// end-of-input test agrees
-	eofPeek, okDecode := false, false
+	// at end of input nothing but 0 can come back: every other result is produced inside the input
+	eofPeek, okDecode := true, false
 	for _, r := range returnsOf(pk) {
 		for _, a := range c.resultAlts(pk, r.Results[0]) {
 			must := append(append([]string{}, a.must...), c.mustLits(pk, r.Block())...)
-			if a.term == "0" && hasLit(must, atEnd) {
-				eofPeek = true
+			if a.term != "0" && !hasLit(must, inInput) {
+				eofPeek = false
 			}
 			if a.term == decoded+"0" && hasLit(must, inInput) {
 				okDecode = true
@@ -858,7 +866,8 @@ func loopCh(atoms []string) string {
 }
 
 func c19d(c *Ctx) {
-	tbl, ok := c.globalMapLiteral("token", "keywords")
+	kw := c.W.GlobalNamed("token", "keywords", "map[string]Type")
+	tbl, ok := c.globalMapLiteral("token", kw)
 	if !ok {
 		c.Unk("anchor:token.keywords", "-", "keyword table not found")
 		return
@@ -879,10 +888,10 @@ func c19d(c *Ctx) {
 		for _, r := range c.flatReturns(fn) {
 			v := r.terms[0]
 			switch {
-			case v == "@token.keywords[$0]#0":
+			case v == "@token."+kw+"[$0]#0":
 				all := len(r.cond.cs) > 0
 				for _, cj := range r.cond.cs {
-					if !hasLit(cj, "+@token.keywords[$0]#1") {
+					if !hasLit(cj, "+@token."+kw+"[$0]#1") {
 						all = false
 					}
 				}
@@ -897,7 +906,7 @@ func c19d(c *Ctx) {
 			case v == `"IDENT"`:
 				all := len(r.cond.cs) > 0
 				for _, cj := range r.cond.cs {
-					if !hasLit(cj, "-@token.keywords[$0]#1") {
+					if !hasLit(cj, "-@token."+kw+"[$0]#1") {
 						all = false
 					}
 				}
